@@ -1065,6 +1065,78 @@ class Oracle:
                     self.check('2d', name, 'weights=float32', got, e, r1[0], r1[1], dict(case0, variant='weights=float32'))
 
 
+# ---------------------------------------------------------------- functional interface called repeatedly
+REPEAT_METHODS = ['poly', 'modpoly', 'imodpoly', 'penalized_poly', 'quant_reg', 'loess', 'pspline_asls', 'pspline_arpls',
+                  'pspline_airpls', 'mixture_model', 'irsqr', 'dietrich', 'interp_pts', 'asls', 'goldindec', 'fastchrom',
+                  'cwt_br', 'std_distribution', 'rubberband', 'corner_cutting', 'optimize_extended_range', 'adaptive_minmax']
+
+
+def find_func(name):
+    import pybaselines
+    for m in MODS:
+        mod = getattr(pybaselines, m)
+        if hasattr(mod, name) and hasattr(getattr(mod, name), '__wrapped__'):
+            return getattr(mod, name)
+    return None
+
+
+def x_containers(x0):
+    """(tag, container, refill(container, new values)) -- the SAME object is refilled in place between calls."""
+    def fill_arr(c, v):
+        c[...] = np.asarray(v, dtype=c.dtype).reshape(c.shape)
+
+    def fill_list(c, v):
+        c[:] = [float(u) for u in v]
+    return [('ndarray', np.array(x0, dtype=float), fill_arr), ('list', [float(u) for u in x0], fill_list),
+            ('int64', np.zeros(len(x0), dtype=np.int64), fill_arr), ('col', np.array(x0, dtype=float)[:, None], fill_arr),
+            ('strided', strided(np.array(x0, dtype=float)), fill_arr)]
+
+
+def oracle_repeat(ctx, orc, budget):
+    """2-3 consecutive calls of module-level functions with the SAME x (and data) container whose contents change in
+    place between the calls; every call is compared with a freshly built fitter on the current values."""
+    from pybaselines import Baseline
+    rng = ctx.rng
+    N = 53
+    nrng = np.random.default_rng([ctx.seed, 77])
+    grids = [np.linspace(-3.0, 12.0, N), np.linspace(100.0, 400.0, N) ** 1.0, np.sort(nrng.uniform(-50, 50, N)) + np.arange(N) * 1e-3,
+             np.linspace(0.0, 1.0, N) ** 2 * 9 + 1]
+    int_grids = [np.arange(N) * 2 - 7, np.arange(N) * 5 + 100, np.cumsum(nrng.integers(1, 4, N))]
+    names = REPEAT_METHODS if budget > 1 else REPEAT_METHODS[:13] + rng.sample(REPEAT_METHODS[13:], 3)
+    for name in names:
+        func = find_func(name)
+        if func is None:
+            continue
+        conts = x_containers(grids[0])
+        for tag, xbuf, refill in (conts if budget > 1 else [conts[0]] + rng.sample(conts[1:], 2)):
+            seq = int_grids if tag == 'int64' else grids
+            ybuf = np.zeros(N)
+            n_calls = 3
+            for step in range(n_calls):
+                xv = np.asarray(seq[(step * 2 + len(name)) % len(seq)] if step else seq[0], dtype=float)
+                refill(xbuf, xv)                                   # same object, new contents
+                y = M.make_y(np.random.default_rng([ctx.seed, step, len(name)]), np.linspace(0, 1, N), 'noise') * (1 + step)
+                if step == 1:
+                    ybuf[:] = y                                     # the data container is refilled as well
+                    dv = ybuf
+                else:
+                    dv = y
+                # alternate the function on the last call: a different function sees the same x object
+                fname = name if step < 2 else rng.choice([n for n in ('poly', 'modpoly', 'pspline_asls', 'loess') if n != name])
+                f = func if fname == name else find_func(fname)
+                data, kw = setup_1d(fname, xv, np.array(dv))
+                if fname == 'collab_pls':
+                    continue
+                case = {'kind': 'oracle-repeat', 'method': name, 'container': tag, 'step': step, 'N': N, 'seedk': 0}
+                want, e0 = quiet(lambda: getattr(Baseline(x_data=np.array(xv)), fname)(np.array(data), **kw))
+                if e0 is not None:
+                    continue
+                dd = dv if fname != 'collab_pls' else data
+                got, e = quiet(lambda: f(data=dd, x_data=xbuf, **kw))
+                orc.check('1d', name, f'function-repeated:x={tag}:call{step + 1}', got, e, want[0], want[1], case)
+
+
+
 def oracle(ctx, budget):
     orc = Oracle(ctx, budget)
     names1 = M.method_names(False)
@@ -1077,6 +1149,7 @@ def oracle(ctx, budget):
     for k, (Mx, Nz) in enumerate(sizes2):
         for name in names2:
             orc.run_2d(name, Mx, Nz, k)
+    oracle_repeat(ctx, orc, budget)
     # the degenerate one-point input: no x versus linspace(-1, 1, 1)
     from pybaselines import Baseline
     y1 = np.array([5.0])
@@ -1159,6 +1232,24 @@ def replay(rep):
             orc.run_2d(case['method'], case['N'][0], case['N'][1], case['seedk'])
         hits = [v for v in ctx.violations if v[0] == rep.get('key')]
         for key, what, _ in (hits or ctx.violations):
+            print('replay:', key, what)
+        if not ctx.violations:
+            print('replay: property holds on this input')
+        return 1 if ctx.violations else 0
+    if case.get('kind') == 'oracle-repeat':
+        class _Stub2:
+            def __init__(self, seed):
+                self.seed, self.rng, self.violations = seed, random.Random(f'{PROP}-{seed}'), []
+
+            def case(self, *a, **k):
+                pass
+
+            def fail(self, key, what, case):
+                self.violations.append((key, what, case))
+        ctx = _Stub2(rep.get('seed', 0))
+        oracle_repeat(ctx, Oracle(ctx, 3), 3)
+        hits = [v for v in ctx.violations if v[2].get('method') == case.get('method')] or ctx.violations
+        for key, what, _ in hits[:5]:
             print('replay:', key, what)
         if not ctx.violations:
             print('replay: property holds on this input')
